@@ -634,6 +634,34 @@ package main
 */
 
 /*@
+; ============================ the policy guards every write, wherever it is made (C17) ====================
+; At every call of the store's three password-writing operations from package main -- also inside helpers that have no contract of their
+; own -- the configured policy accepts exactly the password and user name being written. `s` is the *store of the calling method.
+(everywhere (in "main")
+  (callsite "(*store.Dir).Init" (requires policy-accepted (props C17) (policyok (. s policy) $2 $1)))
+  (callsite "(*store.Dir).AddUser" (requires policy-accepted (props C17) (policyok (. s policy) $2 $1)))
+  (callsite "(*store.Dir).UpdateUser" (requires policy-accepted (props C17) (policyok (. s policy) $2 $1))))
+
+; ============================ no path around the verified ones ===========================================
+; Every function that can reach one of these calls is under contract (or is an unexported helper of such a function and is verified
+; inlined): a new command, handler or goroutine that writes to the store or uses the management interface without the checks the
+; contracts demand would otherwise never be looked at. Checked on the call graph, no solver involved.
+(structural callers-under-contract "(*store.Dir).Init" "" (props C17 C16))
+(structural callers-under-contract "(*store.Dir).AddUser" "" (props C17 C06 C19))
+(structural callers-under-contract "(*store.Dir).UpdateUser" "" (props C17 C06 C12 C19))
+(structural callers-under-contract "(*store.Dir).SetAdmin" "" (props C06 C19))
+(structural callers-under-contract "(*store.Dir).RemoveUser" "" (props C06 C19))
+(structural callers-under-contract "(*store.Dir).Authenticate" "" (props C04 C12))
+(structural callers-under-contract "(*main.Store).Init" "" (props C17 C16))
+(structural callers-under-contract "(*main.Store).Add" "" (props C06 C17))
+(structural callers-under-contract "(*main.Store).Update" "" (props C06 C17))
+(structural callers-under-contract "(*main.Store).SetAdmin" "" (props C06))
+(structural callers-under-contract "(*main.Store).Remove" "" (props C06))
+(structural callers-under-contract "(*main.Store).List" "" (props C06))
+(structural callers-under-contract "(*main.Store).ListFull" "" (props C06))
+(structural callers-under-contract "(*main.Store).Authenticate" "" (props C04 C06))
+(structural callers-under-contract "(*main.webSessionFactory).Generate" "" (props C06 C07))
+
 ; ============================ command line: every command checks the store first (C16) ================
 ; "the agent refuses to run any command on a directory that does not pass the check": each command reaches the store only after
 ; openAndCheck returned without error, and exits with code 3 when it did not.
@@ -642,6 +670,21 @@ package main
   (callsite callee 0 (requires store-opened-and-checked-first (and (called "main.openAndCheck" 0) (= (callresult "main.openAndCheck" 0 1) nil)))))
 (macro (cli-refuses)
   (ensures store-not-opened-means-3 (=> (not (= (callresult "main.openAndCheck" 0 1) nil)) (= (exitcode $r0) 3))))
+
+; init and check do not call openAndCheck (there is nothing to check yet / checking is the command); init hands over exactly the given
+; name and password, so the policy applies to what will be stored
+(func "main.cmdInit"
+  (props C16 C17)
+  (noframe)
+  (callsite "(*main.Store).Init" 0 (requires given-arguments (and (= $1 (local username)) (= $2 (local password)) (not (= $1 "")) (not (= $2 "")))))
+  (ensures store-error-means-3 (=> (and (called "main.NewStore" 0) (not (= (callresult "main.NewStore" 0 1) nil))) (= (exitcode $r0) 3)))
+  (ensures refused-means-3 (=> (and (called "(*main.Store).Init" 0) (not (= (callresult "(*main.Store).Init" 0 0) nil))) (= (exitcode $r0) 3))))
+
+(func "main.cmdCheck"
+  (props C16)
+  (noframe)
+  (ensures exit-0-only-if-checked (=> (= (exitcode $r0) 0)
+      (and (called "(*main.Store).Check" 0) (= (callresult "(*main.Store).Check" 0 0) nil)))))
 
 (func "main.cmdAdd"
   (props C16 C17)
